@@ -10,8 +10,8 @@ import (
 	"strings"
 	"testing/iotest"
 
-	carv1 "github.com/ipld/go-car"
 	"github.com/ipfs/go-cid"
+	carv1 "github.com/ipld/go-car"
 	carv2 "github.com/ipld/go-car/v2"
 	"github.com/multiformats/go-multihash"
 
